@@ -86,6 +86,13 @@ def main():
             lits = rnd.sample(BOUNDARY, 40) + own
         for l in sorted(set(lits)):
             atoms.append(match([k], "==", l))
+    # spellings no renderer chooses: a carriage return inside backticks is not part of the string (Go drops it), escapes denote
+    # their character; the text is given, the tree says what it denotes
+    if "snl" in keys:
+        for lit, src in (("a\nb", "snl == `a\r\nb`"), ("a\nb", "snl == `a\n\rb`"), ("a\nb", 'snl == "a\\nb"'), ("a\nb", 'snl == "a\\x0ab"'), ("a\nb", 'snl == "a\\012b"'),
+                         ("a\nb", 'snl == "\\u0061\\nb"'), ("\t", "stab == `\t`"), ("\t", 'stab == "\\t"'), ("\t", "stab == `\r\t\r`"), ("\t", 'stab == "\\x09"'), ("s", "s == `\rs`"), ("1", "s1 == `1\r`"),
+                         ("1", "i1 == `1\r`"), ("1", 'i1 == "\\x31"'), ("7", 'u7 == "\\067"'), ("true", "bt == `tr\rue`")):
+            atoms.append(dict(match([src.split(" ")[0]], "==", lit), src=src))
     world = vlib.make_world(["eq"], data["docs"], data["cfgs"], [0], atoms, [], [], 1)
     res = vlib.run_world(chk, "c02-eq", world, replay_args=["-lits", "auto,raw,bare"])
     chk.cov["evaluations"] += res["evals"]
